@@ -120,14 +120,23 @@ def r19_1(ctx, S, prog, crate):
         y, s = modes["le"][0]
         e = SY.op(s["rv"]["ops"][0])
         # 2 * size, size * 2, size + size, size << 1 written as a product: canonical linear form with coefficient 2
-        ok = e[0] == "lin" and e[2] == 0 and len(e[1]) == 1 and e[1][0][1] == 2 and e[1][0][0][0] == "site" and \
-            e[1][0][0][1] == "benchmark::BenchMode::sample_size" and e[1][0][0][2] in S.loop["body"]
+        ssz0_ = [c for c in b.live_calls() if c.callee == "benchmark::BenchMode::sample_size" and c.bb in S.loop["body"]]
+        mv_ = S.root_local(ssz0_[0].args[0]["p"]["l"]) if ssz0_ and ssz0_[0].args[0]["k"] in ("copy", "move") else None
+        # this round's size: the sample_size() call of the round, or the size bound by `if let Tune { sample_size } = <mode>`
+        # (the mode variable itself, not yet advanced: R19.5 size-read-before-mode-switch)
+        from_pattern = ("payload", "Tune", "sample_size", ("phi", mv_)) if mv_ is not None else None
+        ok = e[0] == "lin" and e[2] == 0 and len(e[1]) == 1 and e[1][0][1] == 2 and ((e[1][0][0][0] == "site" and
+            e[1][0][0][1] == "benchmark::BenchMode::sample_size" and e[1][0][0][2] in S.loop["body"]) or e[1][0][0] == from_pattern)
         ctx.check(ok, "R19.1", [b.path, "doubles"], "the next tuning size is not this round's sample_size * 2", b.where(y), detail={"factor": 2})
     if ctx.check(len(modes["gt"]) == 1 and modes["gt"][0][1]["rv"]["variant"] == "Collect", "R19.1", [b.path, "collect-when-gt"],
                  "past the threshold the mode becomes %s" % [m[1]["rv"]["variant"] for m in modes["gt"]], b.where(gt_t)):
         y, s = modes["gt"][0]
         dd = direct_place(b, s["rv"]["ops"][0])
-        ctx.check(dd is not None and dd[0] == "call" and dd[1].callee == "benchmark::BenchMode::sample_size" and dd[1].bb in S.loop["body"], "R19.1",
+        ssz1_ = [c for c in b.live_calls() if c.callee == "benchmark::BenchMode::sample_size" and c.bb in S.loop["body"]]
+        mv1_ = S.root_local(ssz1_[0].args[0]["p"]["l"]) if ssz1_ and ssz1_[0].args[0]["k"] in ("copy", "move") else None
+        same = (dd is not None and dd[0] == "call" and dd[1].callee == "benchmark::BenchMode::sample_size" and dd[1].bb in S.loop["body"]) or \
+            (dd is not None and dd[0] == "place" and mv1_ is not None and dd[1] == mv1_ and tuple(dd[2]) == ("sample_size",))
+        ctx.check(same, "R19.1",
                   [b.path, "collect-with-same-size"], "collection does not continue with the size that passed the threshold", b.where(y))
         # rem_samples re-initialised on this edge
         rem = S.local_by_class("rem_samples")
@@ -284,7 +293,11 @@ def r19_5(ctx, S, prog, crate, rule="R19.5"):
         ctx.check(ssz.bb in S.loop["body"] and b.once_per_iteration(ssz.bb, S.loop), rule, [b.path, "size-read-once-per-round"],
                   "current_mode.sample_size() is not read exactly once per round", ssz.line())
         tune = [c for c in b.live_calls() if c.callee == "benchmark::BenchMode::is_tune" and c.bb in S.loop["body"]]
-        ctx.check(bool(tune) and b.dominates(ssz.bb, tune[0].bb), rule, [b.path, "size-read-before-mode-switch"],
+        # (when the tuning step is `if let BenchMode::Tune { .. } = mode` there is no is_tune() call: the switch of the mode is
+        #  the store into the loop-carried mode variable itself)
+        mv2_ = S.root_local(ssz.args[0]["p"]["l"]) if ssz.args[0]["k"] in ("copy", "move") else None
+        mode_writes = [bi2 for bi2, si2, s2 in b.stmts() if s2["k"] == "assign" and not s2["p"]["proj"] and s2["p"]["l"] == mv2_ and bi2 in S.loop["body"]]
+        ctx.check((bool(tune) and b.dominates(ssz.bb, tune[0].bb)) or (not tune and bool(mode_writes) and all(b.dominates(ssz.bb, w_) for w_ in mode_writes)), rule, [b.path, "size-read-before-mode-switch"],
                   "the round's size is read after the mode may already have been advanced", ssz.line())
 
 
